@@ -1,6 +1,7 @@
 package c11
 
 import (
+	"strconv"
 	"strings"
 
 	"github.com/antlr4-go/antlr/v4"
@@ -15,6 +16,48 @@ var vocab = []string{
 	"a", "B", "f(", "1", "1.50", `"s"`, `"q\"\\"`, "\"é\\n\\\"\"", "true", "FALSE", "NULL",
 	"-", "+", "*", "/", "^", "&", "=", "!=", "<", ">",
 	"(", ")", "[", "]", ".", ",", "=>", " ",
+	// atoms longer than any limit a printer could plausibly apply (used by the "long" pass only)
+	longText300, longText12k, longText70k, longName, longNumber,
+}
+
+// Long atoms. A text literal of n characters is made of position counters (so that cutting it anywhere
+// gives a different value) and closes with a two-byte letter; 300 exceeds every limit up to 256, 12 000
+// exceeds goflow's own limits (640 field characters, 10 000 template characters / result bytes), 70 000
+// exceeds a 16-bit length. The long name is bound at the top of every evaluation context; the long
+// number has 40 integer and 40 fractional digits.
+var (
+	longText300 = longLiteral(300)
+	longText12k = longLiteral(12000)
+	longText70k = longLiteral(70000)
+	longName    = "n" + strings.Repeat("ame_", 75)
+	longNumber  = strings.Repeat("1234567890", 4) + "." + strings.Repeat("0123456789", 4)
+	longTokens  = []string{longText300, longText12k, longText70k, longName, longNumber}
+)
+
+func longLiteral(n int) string {
+	var sb strings.Builder
+	for i := 0; sb.Len() < n-1; i++ {
+		sb.WriteString(strconv.Itoa(i))
+		sb.WriteByte(',')
+	}
+	return `"` + sb.String()[:n-1] + "é" + `"`
+}
+
+// symName is the name of a vocabulary symbol in evidence and replays (the long atoms are not spelled out).
+func symName(t string) string {
+	switch t {
+	case longText300:
+		return "<text literal of 300 characters>"
+	case longText12k:
+		return "<text literal of 12000 characters>"
+	case longText70k:
+		return "<text literal of 70000 characters>"
+	case longName:
+		return "<name of 301 characters>"
+	case longNumber:
+		return "<number of 40+40 digits>"
+	}
+	return t
 }
 
 var (
@@ -46,7 +89,7 @@ func join(toks []int) string {
 func tokStrings(toks []int) []string {
 	out := make([]string, len(toks))
 	for i, t := range toks {
-		out[i] = vocab[t]
+		out[i] = symName(vocab[t])
 	}
 	return out
 }
@@ -135,27 +178,40 @@ func lexTexts(s string) []string {
 	return out
 }
 
-var mergeCache = map[string][]bool{}
-
-// merging reports, for a tail of one or two tokens, which vocabulary tokens change the existing
+// mergeRow answers, for a tail of one or two tokens, which vocabulary tokens change the existing
 // tokens when appended (the tokens of tail are not a prefix of the tokens of tail+y). Only those
-// continuations can repair an error at one of the last two tokens.
-func merging(tail string) []bool {
-	if v, ok := mergeCache[tail]; ok {
-		return v
+// continuations can repair an error at one of the last two tokens. Answers are computed on demand
+// (a pass asks only about its own symbols) and kept.
+type mergeRow struct {
+	tail string
+	base []string
+	v    []int8 // 0 = not asked yet, 1 = merges, 2 = does not
+}
+
+var mergeCache = map[string]*mergeRow{}
+
+func merging(tail string) *mergeRow {
+	if m, ok := mergeCache[tail]; ok {
+		return m
 	}
-	base := lexTexts(tail)
-	v := make([]bool, nVocab)
-	for y := range vocab {
-		ext := lexTexts(tail + vocab[y])
-		same := len(ext) >= len(base)
-		for i := 0; same && i < len(base); i++ {
-			same = ext[i] == base[i]
+	m := &mergeRow{tail: tail, base: lexTexts(tail), v: make([]int8, nVocab)}
+	mergeCache[tail] = m
+	return m
+}
+
+func (m *mergeRow) at(y int) bool {
+	if m.v[y] == 0 {
+		ext := lexTexts(m.tail + vocab[y])
+		same := len(ext) >= len(m.base)
+		for i := 0; same && i < len(m.base); i++ {
+			same = ext[i] == m.base[i]
 		}
-		v[y] = !same
+		m.v[y] = 2
+		if !same {
+			m.v[y] = 1
+		}
 	}
-	mergeCache[tail] = v
-	return v
+	return m.v[y] == 1
 }
 
 // walker enumerates every vocabulary sequence of length <= maxLen whose concatenation is not cut off
@@ -196,7 +252,7 @@ func (w *walker) rec(toks []int, idx int, depth int, st int, tail string, inOwne
 	if depth >= w.maxLen || w.stopped {
 		return
 	}
-	var allowed []bool
+	var allowed *mergeRow
 	if st == stTailBad {
 		allowed = merging(tail)
 	}
@@ -204,7 +260,7 @@ func (w *walker) rec(toks []int, idx int, depth int, st int, tail string, inOwne
 		if depth > 0 && y == tokGT && toks[depth-1] == tokEQ {
 			continue // `=`+`>` is the same string as the token `=>` (enumerated one level up)
 		}
-		if allowed != nil && !allowed[y] {
+		if allowed != nil && !allowed.at(y) {
 			continue
 		}
 		cidx := idx*nVocab + y
